@@ -303,10 +303,34 @@ def read_p8png(data):
     return res
 
 
-def write_p8png(label_rows, mem, code_area, version, planes=4):
+def write_p8png(label_rows, mem, code_area, version, planes=4, png_kw=None):
+    """png_kw: how the PNG itself is encoded (refpng.encode: interlace, filters, idat_split, ancillary)."""
     cart = bytes(mem) + bytes(code_area) + bytes(0x3d00 - len(code_area)) + bytes((version,))
     rows = stego_embed(label_rows, cart, planes)
-    return refpng.encode(len(label_rows[0]) // planes, len(label_rows), rows, planes)
+    return refpng.encode(len(label_rows[0]) // planes, len(label_rows), rows, planes, **(png_kw or {}))
+
+
+def png_flavour(sel):
+    """sel: 4 bytes -> (refpng.encode keyword arguments, description).  PICO-8 and picotool write plain PNGs; carts that
+    went through an image tool (optimisers, editors used for labels) come interlaced, filtered, with several IDAT
+    chunks or ancillary chunks."""
+    import struct
+    anc = ((b'pHYs', struct.pack('>IIB', 2835, 2835, 1)), (b'gAMA', struct.pack('>I', 45455)),
+           (b'tEXt', b'Software\x00tool'), (b'tIME', struct.pack('>HBBBBB', 2021, 2, 3, 4, 5, 6)), (b'sRGB', b'\x00'))
+    kw, names = {}, []
+    if sel[0] % 3 == 0:
+        kw['interlace'] = True
+        names.append('interlaced')
+    if sel[1] % 3 == 0:
+        kw['filters'] = [(1,), (2,), (3,), (4,), (0, 1, 2, 3, 4)][sel[1] // 3 % 5]
+        names.append('filtered')
+    if sel[2] % 4 == 0:
+        kw['idat_split'] = 4096 + 97 * (sel[2] // 4)
+        names.append('split_idat')
+    if sel[3] % 3 == 0:
+        kw['ancillary'] = [anc[(sel[3] // 3) % len(anc)]]
+        names.append('ancillary')
+    return kw, '+'.join(names) or 'plain'
 
 
 # ---------------------------------------------------------------- code area / :c: compression
